@@ -187,7 +187,10 @@ func runC11(c *Ctx) {
 			})
 			c.Check("C11.O", "data:walks-slice-in-index-order", p, sc.Pos(), okm && rangeOK, "the messages are taken from the decoded slice by ascending index", "the posted messages are not walked as a slice in index order (e.g. a map or a reordered collection)")
 			c12Like := func() bool {
-				var errVal ssa.Value = sc.(ssa.Value)
+				errVal, isVal := sc.(ssa.Value)
+				if !isVal {
+					return false // started with go/defer: its error cannot be tested
+				}
 				ok := false
 				EachInstr(d, func(i ssa.Instruction) {
 					if x, isIf := i.(*ssa.If); isIf {
